@@ -412,7 +412,7 @@ impl RefEditor {
     }
     pub fn set(&mut self, text: &str, cursor: usize) {
         self.line = text.chars().collect();
-        self.cursor = cursor;
+        self.cursor = cursor.min(self.line.len());
     }
 }
 
